@@ -42,6 +42,9 @@ type hdrSpec struct {
 func parseHdrSpec(s string) hdrSpec {
 	f := strings.Split(s, "/")
 	var h hdrSpec
+	if len(f) != 6 {
+		return h
+	}
 	h.chain = f[0]
 	fmt.Sscan(f[1], &h.height)
 	fmt.Sscan(f[2], &h.round)
@@ -156,6 +159,25 @@ func init() {
 		for _, kv := range pairs {
 			keys = append(keys, kv.a)
 			powers = append(powers, kv.b)
+		}
+		// a validator set with a repeated key cannot be built at all (CometBFT panics): reject the op line
+		dup := func(l []pair) bool {
+			seen := map[int64]bool{}
+			for _, kv := range l {
+				if seen[kv.a] || kv.b <= 0 {
+					return true
+				}
+				seen[kv.a] = true
+			}
+			return len(l) == 0
+		}
+		if dup(pairs) || (op.has("vals2") && dup(op.pairs("vals2"))) || (op.s("tvals") != "same" && dup(op.pairs("tvals"))) ||
+			len(strings.Split(op.s("h1"), "/")) != 6 || len(strings.Split(op.s("h2"), "/")) != 6 ||
+			len(parseHdrSpec(op.s("h1")).flags) != len(pairs) ||
+			(op.has("vals2") && len(parseHdrSpec(op.s("h2")).flags) != len(op.pairs("vals2"))) ||
+			(!op.has("vals2") && len(parseHdrSpec(op.s("h2")).flags) != len(pairs)) {
+			*extra = append(*extra, "stage", "badop")
+			return fmt.Errorf("bad op line")
 		}
 		tkeys, tpowers := keys, powers
 		if op.s("tvals") != "same" {
